@@ -12,7 +12,7 @@ import ast
 
 from .. import AnalysisError
 from ..fold import is_unknown
-from ..srcmodel import walk_local, norm
+from ..srcmodel import walk_local, norm, dotted
 from . import common
 
 
@@ -59,13 +59,37 @@ def check_dispatch(ctx, rule='TBL'):
         fi = ctx.repo.func(spec)
         env = ctx.fold.func_env(fi)
         tests = []
-        for node in walk_local(fi.node):
-            if isinstance(node, ast.Compare) and len(node.ops) == 1 \
-                    and isinstance(node.ops[0], (ast.In, ast.NotIn)) and norm(node.left) == 'layout':
-                coll = ctx.fold.eval(node.comparators[0], env, fi.module.name)
-                if is_unknown(coll):
-                    raise AnalysisError(f"{spec}: layout collection `{norm(node.comparators[0])}` does not fold")
-                tests.append((node, frozenset(coll)))
+
+        def collect(f, pname, fenv):
+            for node in walk_local(f.node):
+                if isinstance(node, ast.Compare) and len(node.ops) == 1 \
+                        and isinstance(node.ops[0], (ast.In, ast.NotIn)) and norm(node.left) == pname:
+                    coll = ctx.fold.eval(node.comparators[0], fenv, f.module.name)
+                    if is_unknown(coll):
+                        raise AnalysisError(f"{f.qualname}: layout collection `{norm(node.comparators[0])}` does not fold")
+                    tests.append((node, frozenset(coll), f))
+        collect(fi, 'layout', env)
+        # helpers of this function that are handed the layout decide for it
+        from .. import flow as _flow
+        for c in walk_local(fi.node):
+            if not isinstance(c, ast.Call):
+                continue
+            hands = [(i, None) for i, a in enumerate(c.args) if norm(a) == 'layout'] + \
+                    [(None, k.arg) for k in c.keywords if k.arg and norm(k.value) == 'layout']
+            if not hands:
+                continue
+            callee = _flow.RESOLVER(dotted(c.func) or '', c, fi.node) if _flow.RESOLVER else None
+            cf = getattr(callee, '_func', None) if callee is not None else None
+            if cf is None or cf is fi:
+                continue
+            a = cf.node.args
+            pn = [x.arg for x in a.posonlyargs + a.args]
+            if pn and pn[0] in ('self', 'cls') and isinstance(c.func, ast.Attribute):
+                pn = pn[1:]
+            for i, kw in hands:
+                name = kw if kw is not None else (pn[i] if i < len(pn) else None)
+                if name:
+                    collect(cf, name, ctx.fold.func_env(cf))
         if spec == 'ChunkParser._parse_meaningful':
             for nm, cls in (('s_desc_lays', 's_desc'), ('tr_first_lays', 'tr_first')):
                 v = env.get(nm)
@@ -75,14 +99,16 @@ def check_dispatch(ctx, rule='TBL'):
                 ctx.check(frozenset(v) == cl[cls], rule, f"_parse_meaningful: {nm} == {sorted(cl[cls])}",
                           detail_bad=f"{nm} = {sorted(v)}: blocks are attached to the wrong side of their section / Twp/Rge",
                           key=f"{rule}|_parse_meaningful|{nm}")
-            used = {norm(t[0].comparators[0]) for t in tests}
+            used = {norm(t[0].comparators[0]) for t in tests if t[2] is fi}
             ctx.check(used <= {'s_desc_lays', 'tr_first_lays'}, rule,
                       '_parse_meaningful tests layouts only through its two collections',
                       detail_bad=f"ad-hoc layout collections {sorted(used)}", key=f"{rule}|_parse_meaningful|adhoc")
             continue
         if not tests:
-            raise AnalysisError(f"{spec}: no layout membership test found")
-        for node, coll in tests:
+            ctx.undecided(rule, f"{spec}: layout membership tests use the {want} layouts",
+                          "no `layout in <collection>` test found in the function or the helpers it hands the layout to")
+            continue
+        for node, coll, holder in tests:
             n += 1
             got = coll - {cl['copy_all']}
             has_copy = cl['copy_all'] in coll
@@ -92,7 +118,7 @@ def check_dispatch(ctx, rule='TBL'):
             ctx.check(ok, rule, f"{spec}: `{norm(node)[:60]}` uses the {want} layouts",
                       why, f"collection {sorted(coll)} is not {sorted(cl[want])}"
                            f"{' + copy_all' if want == 'not_s_desc' else ''}: {why}",
-                      key=f"{rule}|{spec}|{want}|{norm(node.ops[0].__class__.__name__)}", where=common.loc(fi, node))
+                      key=f"{rule}|{spec}|{want}|{norm(node.ops[0].__class__.__name__)}", where=common.loc(holder, node))
     # deduce_layout: default candidates are the four meaningful layouts; returns only known layouts
     fi = ctx.repo.func('plss_parse:deduce_layout')
     env = ctx.fold.func_env(fi)
